@@ -237,6 +237,9 @@ class C03(Check):
             for _ in range(rng.randint(1, 2)):
                 case["prev"].append(self._instance(rng, flexible=rng.random() < 0.15))
             self.note("with_earlier_solves")
+            if case["limit_us"] != 0 and rng.random() < 0.3:
+                case["prev_limit_us"] = rng.choice([0, 0, 5_000_000, -1])
+                self.note("earlier_solves_under_another_time_limit")
         return case
 
     def gen_cases(self, rng, n):
@@ -280,11 +283,16 @@ class C03(Check):
             spec = case["spec"]
             inst = common.build_instance(spec)
         solver = ORToolsSolver(max_time_in_seconds=limit)
+        if "prev_limit_us" in case:
+            # the earlier solves ran under ANOTHER value of the documented attribute max_time_in_seconds
+            pl = case["prev_limit_us"]
+            solver.max_time_in_seconds = None if pl < 0 else (1e-9 if pl == 0 else pl / 1e6)
         for ps in case["prev"]:
             try:
                 solver.solve(common.build_instance(ps, name="earlier"))
             except Exception:  # pylint: disable=broad-except
                 pass
+        solver.max_time_in_seconds = limit
         obs = _one_solve(solver, inst, bool(case.get("call")))
         obs["spec"] = spec
         obs["bench"] = bench
@@ -462,6 +470,8 @@ class C03(Check):
     def shrink_candidates(self, case):
         if case.get("bench"):
             return
+        if "prev_limit_us" in case:
+            yield {k: v for k, v in case.items() if k != "prev_limit_us"}
         if case["prev"]:
             yield dict(case, prev=[])
             yield dict(case, prev=case["prev"][:-1])
